@@ -258,6 +258,15 @@ Section ACC.
     end.
 End ACC.
 
+(* DaskEWAResampler._get_rows_per_scan: the keyword wins; only when it is None the lon/lat attrs['rows_per_scan'] are
+   consulted; nothing given = ValueError (None here); 0 = the whole swath *)
+Definition get_rows_per_scan (kw attr : option Z) (nrows : Z) : option Z :=
+  let r := match kw with Some k => Some k | None => attr end in
+  match r with
+  | None => None
+  | Some k => Some (if k =? 0 then nrows else k)
+  end.
+
 (* DaskEWAResampler._new_chunks: input chunks are made scan aligned,
    chunk_rows = max(floor(auto_rows / rows_per_scan), 1) * rows_per_scan *)
 Definition scan_aligned_rows (auto_rows rps : Z) : Z := Z.max (auto_rows / rps) 1 * rps.
